@@ -9,7 +9,8 @@
 From Coq Require Import ZArith List Bool.
 Import ListNotations.
 From Urwid Require Import PyBase PyList c08_container_gen Containers
-  ContainersBase ContainersStable ContainersProofs ContainersSel ContainersRouting ContainersPath ContainersArrows.
+  ContainersBase ContainersStable ContainersProofs ContainersSel ContainersRouting ContainersRoute ContainersPath ContainersArrows
+  ContainersLanded.
 From Urwid Require MonitoredList MonitoredListProofs.
 Open Scope Z_scope.
 
@@ -43,7 +44,7 @@ Theorem focus_valid_frames_refuted :
     let h := build FUEL specs in
     get_pos h id = ROk 101 /\ focus_child h id = None /\ gfp FUEL h id = RErr EAttr.
 Proof.
-  exists [SLeaf 10 false 0 true []; SFrame 10 false 0 0 None None 101], 1.
+  exists [SLeaf 10 false 0 0 true []; SFrame 10 false 0 0 0 None None 101], 1.
   vm_compute. repeat split; reflexivity.
 Qed.
 Print Assumptions focus_valid_frames_refuted.
@@ -69,43 +70,23 @@ Proof. exact set_pos_error_keeps_focus. Qed.
 Print Assumptions failed_assignment_changes_no_focus.
 
 (* ============ clause 2: a keypress is offered only to widgets on the focus path ============ *)
-(* proved when no ListBox has a pending focus request (true after every render, which the harness does
-   after every operation) *)
-Theorem key_only_on_focus_path_partial :
-  forall f id key h h' k1 off, NoPending h -> kp f id key h = (h', ROk (k1, off)) ->
-    forall l, In l off -> OnPath h id l.
-Proof. exact key_only_on_focus_path_nopending. Qed.
-Print Assumptions key_only_on_focus_path_partial.
+(* For every tree, state (ListBox focus requests may be pending) and fuel: every leaf that is offered the key is reached
+   by a chain of dispatch steps, each from a container to the widget that is ITS FOCUS in the heap in which that
+   container dispatches: [kp_dispatch_heap] = the heap after the container's own preparation (ListBox: the pending
+   set_focus request completed, exactly as ListBox.keypress does first; Columns: pref_col reset).
+     KeyRoute key (S f) id h id                       when id is a leaf
+     KeyRoute key (S f) id h l  <-  focus_child (kp_dispatch_heap f id key h) id = Some c
+                                    /\ KeyRoute key f c (kp_dispatch_heap f id key h) l                        *)
+Theorem key_only_on_focus_path :
+  forall f id key h h' k1 off, kp f id key h = (h', ROk (k1, off)) -> forall l, In l off -> KeyRoute key f id h l.
+Proof. exact key_follows_focus_route. Qed.
+Print Assumptions key_only_on_focus_path.
 
-(* full statement (NOT proved): with pending requests, ListBox.keypress first completes them, so the
-   path is the one in the heap at the moment of the offer: pending requests completed along the route. *)
-Fixpoint offer_heap (fuel : nat) (id : Z) (key : list Z) (h : heap) : heap :=
-  match fuel with
-  | O => h
-  | S f =>
-    match getn h id with
-    | None => h
-    | Some n =>
-      let descend h1 := match focus_child h1 id with
-                        | Some c => if sel f h1 c then offer_heap f c key h1 else h1
-                        | None => h1 end in
-      match nk n with
-      | KLeaf => h
-      | KPile => if n_selc n then match focus_child h id with Some c => offer_heap f c key h | None => h end else h
-      | KCols => if is_empty n then h else
-                 descend (fst ((if negb (is_vert_or_page (cmd_of (Some key))) then w_pref id PNone else ret tt) h))
-      | KGrid => if any_sel f h n then descend h else h
-      | KFrame => descend h
-      | KOvl => match focus_child h id with Some c => offer_heap f c key h | None => h end
-      | KLBox => descend (fst ((if pending n then lb_complete f id true else ret tt) h))
-      end
-    end
-  end.
-Definition key_only_on_focus_path_full : Prop :=
-  forall f id key h h' k1 off,
-    NoDup (path_nodes f (offer_heap f id key h) id) ->      (* a tree: no widget twice on the path *)
-    kp f id key h = (h', ROk (k1, off)) ->
-    forall l, In l off -> OnPath (offer_heap f id key h) id l.
+(* when nothing is pending (true after every render) such a route is the focus path of the heap before the call *)
+Theorem key_route_is_focus_path :
+  forall key f id h l, NoPending h -> KeyRoute key f id h l -> OnPath h id l.
+Proof. exact key_route_on_path. Qed.
+Print Assumptions key_route_is_focus_path.
 
 (* ============ clause 3: an unhandled key comes back unchanged ============ *)
 (* Since the repairs b542e11 (Pile.keypress on a Pile that is not selectable) and 6954e47 (empty Columns) the clause is
@@ -122,14 +103,14 @@ Print Assumptions unhandled_key_unchanged.
 (* the two former counterexamples (a Pile with a stale selectable() == False cache; an empty Columns), now regression
    examples: the key comes back and no focus moves (corpus/C08/pile_swallows_key.json, columns_empty_key.json) *)
 Definition stale_pile_pool : list spec :=
-  [SLeaf 10 false 0 false []; SLeaf 10 false 0 false []; SList KPile 10 false 0 None [1] 0 0 0;
-   SList KPile 10 false 0 None [0; 2] 0 0 0; SLeaf 10 false 0 true []].
+  [SLeaf 10 false 0 0 false []; SLeaf 10 false 0 0 false []; SList KPile 10 false 0 0 None [1] 0 0 0;
+   SList KPile 10 false 0 0 None [0; 2] 0 0 0; SLeaf 10 false 0 0 true []].
 Example former_counterexamples :
   (let h := fst (edit FUEL 2 (MonitoredList.Append 4) (build FUEL stale_pile_pool)) in
    nonnav [120] = true /\ sel FUEL h 3 = false /\ sel FUEL h 2 = true /\
    snd (kp FUEL 3 [120] h) = ROk (Some [120], []) /\ get_pos (fst (kp FUEL 3 [120] h)) 3 = ROk 0)
   /\
-  snd (kp FUEL 0 [120] (build FUEL [SList KCols 10 false 0 None [] 0 0 0])) = ROk (Some [120], []).
+  snd (kp FUEL 0 [120] (build FUEL [SList KCols 10 false 0 0 None [] 0 0 0])) = ROk (Some [120], []).
 Proof. vm_compute. repeat split; reflexivity. Qed.
 
 (* ============ clause 4: arrow keys move focus only onto selectable children ============ *)
@@ -154,13 +135,14 @@ Theorem arrows_land_on_selectable_pick :
 Proof. exact cols_pick_selectable. Qed.
 Print Assumptions arrows_land_on_selectable_pick.
 
-(* full statement (NOT proved; decided by the correspondence and the oracle): after a keypress with an arrow
-   key every focus that changed anywhere in the tree points to a child that was selectable *)
-Definition is_arrow (key : list Z) : bool := existsb (Z.eqb (cmd_of (Some key))) [1; 2; 3; 4].
-Definition arrows_land_on_selectable_full : Prop :=
-  forall f id key h h' r, Inv (node_ok false) h -> NoPending h -> is_arrow key = true ->
-    kp f id key h = (h', ROk r) ->
-    forall x c, focus_child h' x = Some c -> focus_child h x = Some c \/ exists f', sel f' h c = true.
+(* tree-wide: after a keypress with an arrow key (whatever it returns, even a model error) every focus anywhere in the
+   tree is the focus it was before or a child whose selectable() was True before; premise: no ListBox has a pending
+   set_focus request (completing a request restores the old focus position for a moment, selectable or not) *)
+Theorem arrows_land_on_selectable :
+  forall f id key h h' r, NoPending h -> is_arrow key = true -> kp f id key h = (h', r) ->
+    forall x c, focus_child h' x = Some c -> focus_child h x = Some c \/ SelIn h c.
+Proof. exact arrows_land_on_selectable_tree. Qed.
+Print Assumptions arrows_land_on_selectable.
 
 (* ============ clause 5: selectable() iff a child is, right after the contents were set ============ *)
 Theorem selectable_iff_child :
@@ -178,17 +160,22 @@ Proof. exact grid_selectable_iff_child. Qed.
 Print Assumptions selectable_iff_child_gridflow.
 
 (* ============ clause 6: only the focus path is rendered with focus ============ *)
-Theorem only_focus_path_rendered_with_focus_partial :
+(* For every tree and state (requests may be pending: ListBox.render completes them first): a leaf is rendered with
+   focus=True only if render itself was called with focus=True and the leaf is reached by dispatch steps, each from a
+   container to the widget that is its focus in the heap in which it dispatches ([rn_dispatch_heap]: for a ListBox the
+   heap after the pending request was completed).  [hc] in FocusRender is the heap in which that child is then drawn. *)
+Theorem only_focus_path_rendered_with_focus :
+  forall f id focus h h' l, rn f id focus h = (h', ROk l) ->
+    forall x, In x l -> focus = true /\ FocusRender f id h x.
+Proof. exact render_focus_follows_route. Qed.
+Print Assumptions only_focus_path_rendered_with_focus.
+
+(* when nothing is pending, render changes nothing and the leaves rendered with focus are on the focus path *)
+Theorem render_nothing_pending :
   forall f id focus h h' l, NoPending h -> rn f id focus h = (h', ROk l) ->
     h' = h /\ forall x, In x l -> focus = true /\ OnPath h id x.
 Proof. exact rn_nopending. Qed.
-Print Assumptions only_focus_path_rendered_with_focus_partial.
-
-(* full statement (NOT proved): render completes pending ListBox requests on its way; the leaves rendered with
-   focus are on the focus path of the heap it leaves behind *)
-Definition only_focus_path_rendered_with_focus_full : Prop :=
-  forall f id h h' l, NoDup (path_nodes f h' id) -> rn f id true h = (h', ROk l) ->
-    forall x, In x l -> OnPath h' id x.
+Print Assumptions render_nothing_pending.
 
 (* ============ clause 7: get_focus_path / set_focus_path round trip ============ *)
 (* h: the heap the path was read from; h2: any later heap with the same widgets and contents (focus, pref_col,
@@ -223,10 +210,10 @@ Print Assumptions translated_command_table.
 (* ============ non-vacuity ============ *)
 (* a pool: Frame(body = Pile[ Columns[a b c], d ], footer = e) *)
 Definition demo_pool : list spec :=
-  [SLeaf 10 false 0 true [[120]]; SLeaf 10 false 0 false []; SLeaf 10 false 0 true [];
-   SList KCols 60 false 0 None [0; 1; 2] 1 0 0; SLeaf 60 false 0 true [];
-   SList KPile 60 false 0 None [3; 4] 0 0 0; SLeaf 60 false 0 true [];
-   SFrame 60 false 0 5 None (Some 6) 100].
+  [SLeaf 10 false 0 0 true [[120]]; SLeaf 10 false 0 0 false []; SLeaf 10 false 0 0 true [];
+   SList KCols 60 false 0 0 None [0; 1; 2] 1 0 0; SLeaf 60 false 0 0 true [];
+   SList KPile 60 false 0 0 None [3; 4] 0 0 0; SLeaf 60 false 0 0 true [];
+   SFrame 60 false 0 0 5 None (Some 6) 100].
 
 Example demo_invariant : Inv (node_ok true) (build FUEL demo_pool) /\ NoPending (build FUEL demo_pool).
 Proof.
@@ -249,3 +236,18 @@ Example demo_key_routing :
   snd (kp FUEL 7 [121] (build FUEL demo_pool)) = ROk (Some [121], [0]) /\
   snd (rn FUEL 7 true (build FUEL demo_pool)) = ROk [0].
 Proof. vm_compute. repeat split; reflexivity. Qed.
+
+(* geometry of the widened regime: a box Pile of 10 rows with a packed leaf of 2 rows and two weighted leaves (1 : 3)
+   gives them 2, 2 and 6 rows (Pile.get_item_rows: int(8 * 1 / 4 + 0.5) = 2, then the remaining 6) *)
+Example demo_weights :
+  let h := build FUEL [SLeaf 20 false 2 0 true []; SLeaf 20 false 0 1 true []; SLeaf 20 false 0 3 false [];
+                       SList KPile 20 true 10 0 None [0; 1; 2] 0 0 0] in
+  match getn h 3 with Some n => heights FUEL h n | None => [] end = [2; 2; 6].
+Proof. vm_compute. reflexivity. Qed.
+
+(* Columns.column_widths: 30 columns, dividechars 1, a ('given', 5) column and two weighted leaves (1 : 2) -> 5, 8, 15 *)
+Example demo_column_weights :
+  let h := build FUEL [SLeaf 5 false 0 0 true []; SLeaf 9 false 0 1 true []; SLeaf 9 false 0 2 true [];
+                       SList KCols 30 false 0 0 None [0; 1; 2] 1 0 0] in
+  match getn h 3 with Some n => (cols_widths h n, col_x h n 2) | None => ([], 0) end = ([5; 8; 15], 15).
+Proof. vm_compute. reflexivity. Qed.
